@@ -118,6 +118,20 @@ theorem ipv4Broadcast_bits (a n : Nat) (ha : a < 2 ^ 32) (i : Nat) :
           _ ≤ 2 ^ i := Nat.pow_le_pow_right (by decide) (by omega)
       simp [h1, h2, this]
 
+theorem ipv6Broadcast_bits (a n : Nat) (ha : a < 2 ^ 128) (i : Nat) :
+    (ipv6Broadcast a n).testBit i = (decide (i < 128 - n) || a.testBit i) := by
+  unfold ipv6Broadcast prefixMask6
+  simp only [Nat.testBit_or, Nat.testBit_and, Nat.testBit_xor, Nat.testBit_two_pow_sub_one]
+  by_cases h1 : i < 128 - n
+  · simp [h1]
+  · by_cases h2 : i < 128
+    · simp [h1, h2]
+    · have : a.testBit i = false := by
+        apply Nat.testBit_lt_two_pow
+        calc a < 2 ^ 128 := ha
+          _ ≤ 2 ^ i := Nat.pow_le_pow_right (by decide) (by omega)
+      simp [h1, h2, this]
+
 /-! ### sorted-subset check (both lists are emitted sorted by the translator) -/
 
 /-- `xs ⊆ ys` for two lists sorted the same way: one pass -/
